@@ -126,6 +126,39 @@ fn tampers(t: &mut Tape, tx: &Transaction, spent: &[TxOut], must_use: &[usize], 
             }
             d.output[i].script_pubkey = Script::from(sb);
             push("blinded-output-script-changed", d, spent.to_vec(), false, &mut out, ctx);
+            // ... and replaced by a script of another class: the range proof binds the output to its script
+            // whatever that script is (unspendable, empty, longer, shorter, another program)
+            let orig = tx.output[i].script_pubkey.to_bytes();
+            let first = t.below(7);
+            for k in 0..2 {
+                let nb: Vec<u8> = match (first + 3 * k) % 7 {
+                    0 => vec![0x6a],
+                    1 => {
+                        let mut v = vec![0x6a];
+                        v.extend_from_slice(&orig);
+                        v
+                    }
+                    2 => vec![0x6a, 0x04, 0xde, 0xad, 0xbe, 0xef],
+                    3 => vec![],
+                    4 => {
+                        let mut v = orig.clone();
+                        v.push(0x51);
+                        v
+                    }
+                    5 => orig[..orig.len().saturating_sub(1)].to_vec(),
+                    _ => {
+                        let mut v = vec![0x00, 0x14];
+                        v.extend_from_slice(&t.bytes(20));
+                        v
+                    }
+                };
+                if nb == orig {
+                    continue;
+                }
+                let mut d = tx.clone();
+                d.output[i].script_pubkey = Script::from(nb);
+                push("blinded-output-script-replaced", d, spent.to_vec(), false, &mut out, ctx);
+            }
         }
         if o.asset.is_confidential() {
             let mut a = tx.clone();
